@@ -15,7 +15,8 @@ EXPLANATION = (
     "`bytes_read == 0` or `buffer filled` edges, so a partial record is UnexpectedEof; (R5) line readers strip LF/CR "
     "only after read_until/read_line returned and only on the true edge of an ends_with test."
     " (R4, extended) the completeness edge may be a counter-vs-length comparison, and that counter must be accumulated, never overwritten, inside the loop; (R6) CR of a CRLF split across two fill_buf windows: the CR test of every LF scanner is window-independent or on the accumulated buffer (found the genuine defect F16, repaired); (R7) copy before consume: a scanner that appends window bytes to a destination does so on every path that consumes a non-constant amount."
-    " (R8) a UTF-8 validator fed the bytes of one window inside a scanning loop must not make its error final (found the genuine defect F17 in the lazy VCF reader, repaired).")
+    " (R8) a UTF-8 validator fed the bytes of one window inside a scanning loop must not make its error final (found the genuine defect F17 in the lazy VCF reader, repaired)."
+    " R4 further requires, for the cursor idiom, that every read inside the loop targets a buffer slice derived from the cursor.")
 ASSUMPTIONS = [
     "std/tokio read_exact, read_until, read_line, BufReader reassemble short reads and retry Interrupted (library contract)",
     "the classification is structural: it proves the necessary part (no site assumes a window or a full read), not content equality",
@@ -214,6 +215,13 @@ def eof_or_partial(ctx, rule, f, allow_zero):
             # overwritten (c = n), or a transfer that arrives in two pieces is measured by its last piece only
             cl = _root_var(f, ops[0] if l1 else ops[1])
             if cl is not None:
+                # ... and every read inside the loop targets the buffer FROM that cursor (`&mut buf[c..]`): reading into the
+                # start of the buffer again overwrites the piece that already arrived
+                for rb, rc in reads:
+                    if rb in body and not any(R.derives_from_local(f, a, cl, through_calls=True) for a in rc["args"][1:]):
+                        ctx.violation(rule, "%s/read-not-at-cursor/%s" % (rule, f.key),
+                                      "%s counts its progress in a cursor but reads into a buffer slice that does not start at it: a transfer "
+                                      "that arrives in two pieces overwrites its first piece" % f.key, f.loc(rb))
                 for df in C.defs(f).get(cl, []):
                     if df[0] != "=" or df[1] not in body:
                         continue
